@@ -89,7 +89,7 @@ def run(rep):
             if rv.violated != "TxAgrees":
                 raise tlc.MachineryError(f"deviation {d} does not violate TxAgrees in the model ({rv.violated}, {rv.error})")
             rep.note(f"Dev={{{d}}}: TxAgrees violated in the model, as it must be")
-    cases, total_mut = mg.build_cases(base, rng, rep.tier)
+    cases, total_mut = mg.build_cases(base, rng, rep.tier, PID)
     cases = mg.witness_cases(findings) + cases
     rep.bounds.update(budgets=mg.BUDGETS[rep.tier], generated=len(base), mutants_total=total_mut,
                       corpus=len(cases), by_seed={mg.SEED_NAMES.get(s, str(s)): sum(1 for b in base if b["seed"] == s)
